@@ -151,7 +151,7 @@ CLAIMS = {
              "observer hook shows the cutting plane model after every update and the invariants of Bundle.tla (cuts are lower bounds at "
              "the minimiser and at probe points, errors non-negative, size below capacity) are evaluated on it.",
         note="The n-dimensional real-valued certificate is observed per run (driver oracle with known minimiser), exact only in 1-D. "
-             "One open finding: the ellipsoid method with epsilon <= 5e-8 and a warm start (known_findings.json)."),
+             "One open finding: the ellipsoid method with epsilon <= 1e-7 and a warm start (known_findings.json)."),
     "C04": dict(
         category="exploration", design_ref="DESIGN.md §3 C04",
         technique="TLC model checking of InteriorPoint.tla + exact vertex enumeration of small integer LPs in TLC (LinProg.tla) + TLC validation of KKT-constructed / planted / restated programs (ProgramTrace.tla)",
